@@ -123,6 +123,10 @@ private:
             }
         }
 
+        // Restore the shift installed at construction, so that the operator is left
+        // unchanged and further init()/compute() calls iterate with the right shift
+        m_op.set_shift(m_sigmar, m_sigmai);
+
         Base::sort_ritzpair(sort_rule);
     }
 
